@@ -14,3 +14,43 @@ pub broadcast group group_pat_seq { ax_pat_seq_ref_string, ax_pat_seq_str, ax_pa
 #[verifier::allow(undeclared_external_trait)]
 pub assume_specification<P: core::str::pattern::Pattern>[ str::starts_with ](s: &str, pat: P) -> (r: bool)
     ensures r == is_prefix_chars(pat_seq::<P>(pat), s@);
+pub open spec fn is_suffix_chars(a: Seq<char>, b: Seq<char>) -> bool {
+    a.len() <= b.len() && forall|i: int| 0 <= i < a.len() ==> a[i] == b[b.len() - a.len() + i]
+}
+pub open spec fn opt_str_view(o: Option<&str>) -> Option<Seq<char>> { match o { Some(s) => Some(s@), None => None } }
+pub open spec fn strip_prefix_spec(s: Seq<char>, p: Seq<char>) -> Option<Seq<char>> {
+    if is_prefix_chars(p, s) { Some(s.subrange(p.len() as int, s.len() as int)) } else { None }
+}
+pub open spec fn strip_suffix_spec(s: Seq<char>, p: Seq<char>) -> Option<Seq<char>> {
+    if is_suffix_chars(p, s) { Some(s.subrange(0, s.len() - p.len())) } else { None }
+}
+#[verifier::allow(undeclared_external_trait)]
+pub assume_specification<'a, P: core::str::pattern::Pattern>[ str::strip_prefix ](s: &'a str, pat: P) -> (r: Option<&'a str>)
+    ensures opt_str_view(r) == strip_prefix_spec(s@, pat_seq::<P>(pat));
+#[verifier::allow(undeclared_external_trait)]
+pub assume_specification<'a, P: core::str::pattern::Pattern>[ str::strip_suffix ](s: &'a str, pat: P) -> (r: Option<&'a str>)
+    where for<'b> <P as core::str::pattern::Pattern>::Searcher<'b>: core::str::pattern::ReverseSearcher<'b>,
+    ensures opt_str_view(r) == strip_suffix_spec(s@, pat_seq::<P>(pat));
+
+// splitting: the pieces are an oracle of (string, separator); only membership / order of the pieces is used
+#[verifier::external_type_specification]
+#[verifier::external_body]
+#[verifier::reject_recursive_types(P)]
+pub struct ExSplit<'a, P: core::str::pattern::Pattern>(core::str::Split<'a, P>);
+pub uninterp spec fn split_seq(s: Seq<char>, sep: Seq<char>) -> Seq<Seq<char>>;
+pub uninterp spec fn split_view<'a, P: core::str::pattern::Pattern>(it: &core::str::Split<'a, P>) -> Seq<Seq<char>>;
+#[verifier::allow(undeclared_external_trait)]
+pub assume_specification<'a, P: core::str::pattern::Pattern>[ str::split ](s: &'a str, pat: P) -> (r: core::str::Split<'a, P>)
+    ensures split_view(&r) == split_seq(s@, pat_seq::<P>(pat));
+/// R8 shim: `e.split(c).collect::<Vec<&str>>()` yields the pieces of the split oracle, in order
+pub trait VSplitCollect {
+    fn vsplit_collect<'a>(&'a self, sep: char) -> (r: Vec<&'a str>)
+        ensures r@.len() == split_seq(self.vsc_view(), seq![sep]).len(),
+            forall|k: int| 0 <= k < r@.len() ==> (#[trigger] r@[k])@ == split_seq(self.vsc_view(), seq![sep])[k];
+    spec fn vsc_view(&self) -> Seq<char>;
+}
+impl VSplitCollect for str {
+    #[verifier::external_body]
+    fn vsplit_collect<'a>(&'a self, sep: char) -> (r: Vec<&'a str>) { unimplemented!() }
+    open spec fn vsc_view(&self) -> Seq<char> { self@ }
+}
